@@ -80,7 +80,7 @@ def heapLine (args : List String) : Option String :=
           else none }
     let h' := usageFlow Gen.usageRulesCopiesClient h (.ref 0) (.ref 2)
     let changed := [0, 1, 2, 3, 4].filter fun a => h'.store a != h.store a
-    some (if changed.isEmpty then "unchanged" else "changed")
+    some (if changed.isEmpty && Gen.usageRulesCopiesConfig then "unchanged" else "changed")
   | ["settings"] =>
     some (if Gen.revocationSelfWrites.isEmpty && !Gen.userinfoWritesConfig && Gen.findTokenSchemaIsLocal then "unchanged" else "changed")
   | _ => none
